@@ -157,10 +157,11 @@ def findProp (p : Pkt) (id : Nat) : Option Nat := (p.props.find? (·.1 = id)).ma
 
 /-- the call started a new *session* (the only case in which identifiers and the store may
     change without an announcement): CONNECT with clean start sent or delivered, or a CONNACK
-    delivered with success and session not present / Session Expiry Interval 0 -/
+    sent or delivered with success and session not present (delivered: also Session Expiry
+    Interval 0) -/
 def startsNewSession (evs : List Ev) : Bool :=
   evs.any fun e => match e with
-    | .send p _ => p.kind = .connect ∧ p.clean
+    | .send p _ => (p.kind = .connect ∧ p.clean) ∨ (p.kind = .connack ∧ p.rc = some 0 ∧ !p.sp)
     | .recv p => (p.kind = .connect ∧ p.clean) ∨
                  (p.kind = .connack ∧ p.rc = some 0 ∧ (!p.sp ∨ findProp p pSEI = some 0))
     | _ => false
